@@ -20,6 +20,7 @@ BAD_OBJ = ("X",)  # converted to a plain object(): unsupported term type
 BAD_DT = L("x", None, "http://a/dt")  # typed literal (with datatype table size 0)
 SCOPE = "repeat"
 CAUSES = ("unsupported", "datatype_disabled", "short_tuple")
+NS_AFTER = ("http://a/x", "http://a/", "x")  # IRIs whose entries the alphabet's statements use
 
 
 def mutate(st, slot: int, cause: str, nested: bool):
@@ -60,7 +61,9 @@ def drive(case: dict):
     alpha = AL.alphabet(SCOPE, arity)
     seq = [alpha[i] for i in case["seq"]]
     pos, slot, cause, nested = case["pos"], case["slot"], case["cause"], case["nested"]
-    opts = DR.make_options(cls, preset, case["frame_size"], True, generalized=True)
+    ns_after = case.get("ns_after")
+    opts = DR.make_options(cls, preset, case["frame_size"], True, generalized=True,
+                           ns=bool(ns_after))
     stream = DR.g_stream(cls, opts) if api == "generic" else DR.r_stream(cls, opts)
     out = io.BytesIO()
     from pyjelly.serialize.ioutils import write_delimited  # noqa: PLC0415
@@ -107,16 +110,24 @@ def drive(case: dict):
             send(i, to_api(bad, api), ("?bad-accepted",))
         else:
             send(i, to_api(st, api), T.norm_st(st))
+    declared: list = []
+    if ns_after:
+        # the caller carries on by declaring a namespace on the same stream
+        try:
+            stream.namespace_declaration("v", ns_after)
+            declared.append(("v", ("I", ns_after)))
+        except Exception as e:  # noqa: BLE001
+            raised_at.append((len(seq), type(e).__name__))
     flush_raised = None
     try:
         emit(stream.flow.to_stream_frame())
     except Exception as e:  # noqa: BLE001
         flush_raised = type(e).__name__
-    return out.getvalue(), accepted, raised_at, flush_raised, len(seq)
+    return out.getvalue(), accepted, raised_at, flush_raised, len(seq), declared
 
 
 def run_case(case: dict):
-    data, accepted, raised_at, flush_raised, n = drive(case)
+    data, accepted, raised_at, flush_raised, n, declared = drive(case)
     pos = case["pos"]
     rejected = any(i == pos for i, _ in raised_at)
     if not rejected:
@@ -125,9 +136,13 @@ def run_case(case: dict):
         frames = jwire.read_delimited(data)
         dec, per = jspec.decode_frames(frames, finish=False)
         got = [T.norm_st(s) for s in jspec.statements(per)]
+        got_ns = jspec.namespaces(per)
         err = None
     except (jspec.SpecViolation, jwire.WireError) as e:
-        got, err = None, str(e)
+        got, got_ns, err = None, None, str(e)
+    if err is None and got_ns != declared:
+        return "poisoned", (f"after rejecting statement {pos} a namespace declaration of "
+                            f"{declared} is written as {got_ns}")
     later = [i for i in range(pos + 1, n)]
     later_raised = [i for i, _ in raised_at if i > pos]
     refuses = bool(later) and len(later_raised) == len(later)
@@ -174,26 +189,31 @@ def shard(job) -> dict:
                 if not all(T.is_rdf11(alpha[i]) for i in sym):
                     acc.counters["not_rdf11"] += 1
                     continue
-            case = {"api": api, "cls": cls, "preset": list(preset), "seq": list(sym),
+            base = {"api": api, "cls": cls, "preset": list(preset), "seq": list(sym),
                     "pos": pos, "slot": slot, "cause": cause, "nested": nested,
                     "frame_size": frame_size}
-            acc.evals += 1
-            try:
-                r = run_case(case)
-            except Exception as e:  # noqa: BLE001
-                acc.violation({"fail": "harness", "exc": type(e).__name__},
-                              f"harness could not drive case {case}: {e!r}", case)
-                continue
-            if r is None:
-                acc.counters["held"] += 1
+            variants = [base]
+            if n <= 2 and frame_size == 250:
+                variants += [{**base, "ns_after": iri} for iri in NS_AFTER]
+            for case in variants:
+                acc.evals += 1
+                try:
+                    r = run_case(case)
+                except Exception as e:  # noqa: BLE001
+                    acc.violation({"fail": "harness", "exc": type(e).__name__},
+                                  f"harness could not drive case {case}: {e!r}", case)
+                    continue
+                if r is None:
+                    acc.counters["held"] += 1
+                    acc.nontrivial += 1
+                    continue
+                if r[0] == "skip":
+                    acc.counters["bad_accepted"] += 1
+                    continue
                 acc.nontrivial += 1
-                continue
-            if r[0] == "skip":
-                acc.counters["bad_accepted"] += 1
-                continue
-            acc.nontrivial += 1
-            acc.violation({"fail": r[0], "cause": cause, "api": api},
-                          f"{r[1]} case={case}", case)
+                acc.violation({"fail": r[0], "cause": cause, "api": api,
+                               "ns_after": bool(case.get("ns_after"))},
+                              f"{r[1]} case={case}", case)
         acc.sample({"api": api, "cls": cls, "preset": preset, "len": n, "pos": pos,
                     "cause": cause, "nested": nested, "slot": slot}, cap=2)
     return acc.out()
